@@ -11,6 +11,9 @@ import common  # noqa: E402
 
 MODULES = {
     "C12": "h_path",
+    "C13": "h_walk",
+    "C14": "h_glob",
+    "C16": "h_fileobj",
     "C01": "h_fs",
     "C05": "h_fs",
     "C06": "h_fs",
